@@ -551,6 +551,25 @@ impl EmitScope {
         self.choice_label_targets.get(label).map(String::as_str)
     }
 
+    /// A bare label that is not visible in the current weave may belong to the
+    /// enclosing knot's own weave (read from one of its stitches): `knot.label`.
+    fn resolve_knot_level_label<'a>(
+        &self,
+        label: &str,
+        context: &'a EmitContext,
+    ) -> Option<&'a String> {
+        if label.contains('.')
+            || context.global_variables.contains(label)
+            || self.temp_param_names.contains(label)
+        {
+            return None;
+        }
+        let knot = self.top_flow_name.as_ref()?;
+        context
+            .qualified_choice_labels
+            .get(&format!("{knot}.{label}"))
+    }
+
     fn resolve_qualified_choice_label(
         &self,
         target: &str,
